@@ -861,6 +861,8 @@ impl DirectAddrUpdateState {
                 // Release the reporter before signalling: the actor reacts to the signal with
                 // `try_run`, which must be able to take the lock, or a wanted update is lost.
                 drop(net_reporter);
+                #[cfg(feature = "verif-hooks")]
+                iroh_base::verif_hooks::point_async("direct_addr:before_done", "").await;
                 run_done.send(()).await.ok();
                 #[cfg(feature = "verif-hooks")]
                 iroh_base::verif_hooks::point_async("direct_addr:after_done", "").await;
